@@ -146,8 +146,8 @@ func (obj *Package) Use(pkg *Package) {
 			obj.vars = map[string]*VarVal{}
 		}
 		for name, vv := range pkg.vars {
-			if xv := obj.vars[name]; xv != nil && xv.Pkg == obj {
-				continue // the package's own variable shadows the used one
+			if xv := obj.vars[name]; xv != nil && (xv.Pkg == obj || obj.Imports[name] != nil) {
+				continue // the package's own or imported variable shadows the used one
 			}
 			if vv.Export && Unbound != vv.Val { // not the placeholder of an exported, undefined name
 				obj.vars[name] = vv
@@ -157,8 +157,8 @@ func (obj *Package) Use(pkg *Package) {
 			obj.funcs = map[string]*FuncInfo{}
 		}
 		for name, fi := range pkg.funcs {
-			if xf := obj.funcs[name]; xf != nil && xf.Pkg == obj {
-				continue // the package's own function shadows the used one
+			if xf := obj.funcs[name]; xf != nil && (xf.Pkg == obj || obj.Imports[name] != nil) {
+				continue // the package's own or imported function shadows the used one
 			}
 			if fi.Export {
 				obj.funcs[name] = fi
@@ -282,7 +282,7 @@ func (obj *Package) Import(pkg *Package, varName string) {
 		pkg.mu.Unlock()
 	}()
 	name := strings.ToLower(varName)
-	if vv := pkg.vars[name]; vv != nil {
+	if vv := pkg.vars[name]; vv != nil && (Unbound != vv.Val || pkg.funcs[name] == nil) {
 		obj.vars[name] = vv
 		obj.Imports[name] = &Import{Pkg: pkg, Name: name}
 	} else if fi := pkg.funcs[name]; fi != nil {
@@ -555,7 +555,7 @@ func (obj *Package) Unexport(name string) {
 			fi.Export = false
 			for _, u := range obj.Users {
 				u.mu.Lock()
-				if xf := u.funcs[name]; xf != nil && obj == xf.Pkg {
+				if xf := u.funcs[name]; xf != nil && obj == xf.Pkg && u.Imports[name] == nil {
 					delete(u.funcs, name)
 					u.inherit(name)
 				}
@@ -573,7 +573,7 @@ func (obj *Package) Unexport(name string) {
 			}
 			for _, u := range obj.Users {
 				u.mu.Lock()
-				if xv := u.vars[name]; xv != nil && obj == xv.Pkg {
+				if xv := u.vars[name]; xv != nil && obj == xv.Pkg && u.Imports[name] == nil {
 					delete(u.vars, name)
 					u.inherit(name)
 				}
